@@ -51,7 +51,7 @@ RegexToks == {"/r/","/[)]/g"}
 TplToks == {"`t`","`}`","`h${","}m${","}t`"}
 FnKinds == {"","async","*","async*"}
 MethKinds == {"","get","set","async","*","async*"}
-Keys == {"pr","if","3","'s'"}
+Keys == {"pr","if","3","'sk'"}
 
 C0(k) == [k |-> k, op |-> "", n |-> 0]
 CN(k, n) == [k |-> k, op |-> "", n |-> n]
@@ -190,7 +190,8 @@ Fresh(k) == k \in {"id","psid","psh","bid","bpsh","bpshd","fnn","clsn","fdecl","
 FreshCon(con) == Fresh(con.k) \/ (con.k = "bobj" /\ con.op = "r")
 HasTerm(k) == k \in {"expr","var","dow","brk","cont","ret0","ret","throw","dbg","field","sfield","pfield","cfield"}
 \* cost class
-Cost(con) == IF SigArgs(con) = <<>> /\ con.k \notin {"empty","brk","cont","ret0","dbg","dup"} THEN "l"
+Cost(con) == IF con.k = "yield0" THEN "e"
+             ELSE IF SigArgs(con) = <<>> /\ con.k \notin {"empty","brk","cont","ret0","dbg","dup"} THEN "l"
              ELSE IF con.k \in SKinds THEN "s" ELSE IF con.k \in EKinds THEN "e" ELSE "x"
 
 (* ------------------------------- the ladder ------------------------------- *)
@@ -198,6 +199,7 @@ LComma == 0  LAsg == 1  LCond == 2  LCoal == 3  LOr == 4  LAnd == 5  LBor == 6  
 LShift == 11  LAdd == 12  LMul == 13  LExp == 14  LUn == 15  LUpd == 16  LNew == 17  LCall == 18  LMem == 19  LPrim == 20
 SHead == 100     \* CoalesceExpressionHead: CoalesceExpression | BitwiseORExpression
 STag == 101      \* MemberExpression | CallExpression followed by a TemplateLiteral (not an OptionalChain)
+SNew == 102      \* NewExpression: MemberExpression | new NewExpression (neither a CallExpression nor an OptionalExpression)
 BinLevel(op) == CASE op = "??" -> LCoal [] op = "||" -> LOr [] op = "&&" -> LAnd [] op = "|" -> LBor [] op = "^" -> LXor [] op = "&" -> LBand
                   [] op \in {"==","!=","===","!=="} -> LEq [] op \in {"<",">","<=",">=","instanceof","in"} -> LRel
                   [] op \in {"<<",">>",">>>"} -> LShift [] op \in {"+","-"} -> LAdd [] op \in {"*","/","%"} -> LMul [] op = "**" -> LExp
@@ -226,6 +228,7 @@ Fits(t, req, noIn) ==
     \/ /\ ~(noIn /\ t.k = "bin" /\ t.op = "in")
        /\ CASE req = SHead -> (t.k = "bin" /\ t.op = "??") \/ Level(t) >= LBor
             [] req = STag -> Level(t) >= LCall /\ ~IsOptChain(t)
+            [] req = SNew -> t.k = "new0" \/ Level(t) >= LMem
             [] OTHER -> Level(t) >= req
 \* the level the grammar demands of child i (-1: the child is not an expression)
 ChildReq(t, i) ==
@@ -233,7 +236,7 @@ ChildReq(t, i) ==
     CASE k = "grp" -> LComma
       [] k \in {"un","pre"} -> LUn
       [] k = "post" -> LNew
-      [] k = "new0" -> LNew
+      [] k = "new0" -> SNew
       [] k = "newa" -> (IF i = 1 THEN LMem ELSE LAsg)
       [] k \in {"call","ocall"} -> (IF i = 1 THEN LCall ELSE LAsg)
       [] k \in {"dot","odot","pdot","opdot"} -> LCall
@@ -406,7 +409,7 @@ Spell(t) ==
 Wrapped(t) == t.k \in {"grp","idx","oidx","dot","odot","pdot","opdot","nt","im","new0","newa","call","ocall","un","pre","post","bin","asg",
                        "cond","yield0","yield","yields","arrow","arrowb","comma"}
 IdentOp(op) == op \in {"delete","void","typeof","await","in","instanceof"}
-KeyCanon(op) == IF op = "'s'" THEN "s" ELSE op
+KeyCanon(op) == IF op = "'sk'" THEN "sk" ELSE op
 MethPre(op) == CASE op = "" -> <<>> [] op = "async*" -> <<"async * ">> [] op = "*" -> <<"* ">> [] OTHER -> <<op \o " ">>
 FnHead(op) == CASE op = "" -> "function" [] op = "async" -> "async function" [] op = "*" -> "function*" [] op = "async*" -> "async function*"
 RECURSIVE CommaList(_)
@@ -659,10 +662,13 @@ Ins(lens, off) == LET st == Starts(lens, 1, off) IN
 (* ------------------------------- behaviours ------------------------------- *)
 Init == stack = <<>> /\ ne = 0 /\ ns = 0 /\ nx = 0 /\ nleaf = 0
 
+\* tables computed once (constant level)
+SigTab == [c \in Cons |-> SigArgs(c)]
+CostTab == [c \in Cons |-> Cost(c)]
 Apply(con) ==
-    LET sa == SigArgs(con)
+    LET sa == SigTab[con]
         n == Len(sa)
-        cost == Cost(con)
+        cost == CostTab[con]
     IN /\ Len(stack) >= n
        /\ ns < MaxS
        /\ Len(stack) - n + 1 <= MaxStack
